@@ -23,6 +23,7 @@ func runC09(c *Ctx) {
 	c09R2(c)
 	c09R3(c)
 	indexResolution(c, "R4")
+	c.shared("R7", "C15/R3", "sort is not a mutating method: it works on a clone whose cells are fresh copies, so neither the order nor the cells of the receiver change", keyHas("sort-clone", "sort-subject", "array.sort effects"), func(s *Ctx) { c15R3(s, nativeMethods(s.P)) })
 	if eu := c.P.LangFunc("(*Evaluator).evalUnaryExpr"); eu != nil {
 		c.note("R5 incdec-table: ++ stores old+1 and -- old-1 into the operand's cell through evalAssignment; postfix yields the old number, prefix the updated value; the assignment's error is propagated (C11/R1).")
 		incdecTable(c, "R5", eu)
